@@ -213,6 +213,16 @@ def catalogue(tier, rng, families=None, max_n=64):
             for info, iset in infos:
                 add(Entry("Cyclic(n=%d,g=%s)/%s" % (n, bin(g), info), "cyclic", (n, g), (lambda n=n, g=g, iset=iset: E.CyclicCodeEncoder(code_length=n, generator_polynomial=g, information_set=iset)),
                           info=info, cyclic=True, gpoly=g, component="CyclicCodeEncoder", extra={"k": kk}))
+            # the same code given by its check polynomial h(X) = (X^n + 1) / g(X) only (several such codes of one length in one process)
+            if gi < 3 and 0 < kk < n:
+                hq, a, dg = 0, (1 << n) | 1, g.bit_length() - 1
+                while a and a.bit_length() - 1 >= dg:
+                    sh = a.bit_length() - 1 - dg
+                    hq |= 1 << sh
+                    a ^= g << sh
+                if a == 0:
+                    add(Entry("Cyclic(n=%d,h=%s)/left" % (n, bin(hq)), "cyclic", (n, g), (lambda n=n, hq=hq: E.CyclicCodeEncoder(code_length=n, check_polynomial=hq)),
+                              info="left", cyclic=True, gpoly=g, component="CyclicCodeEncoder", extra={"k": kk, "given_by": "check_polynomial"}))
     # --- BCH: every Bose distance
     from kaira.models.fec.encoders.bch_code import get_valid_bose_distances
     for mu in range(2, 7):
